@@ -26,7 +26,8 @@ Entry(k) == LET c == RandomElement(1..12) IN
             ELSE RandomElement(AnyRaw)
 \* (the parameter keeps TLC from evaluating the definition once and caching it as a constant)
 RandMap(n) == [str |-> Entry("str"), arr |-> Entry("arr"), num |-> Entry("num"), flg |-> Entry("flg"),
-            re |-> Entry("re"), al |-> Entry("al"), fn |-> Entry("fn"), beta |-> Entry("beta"),
+            re |-> Entry("re"), al |-> Entry("al"), fn |-> Entry("fn"), nre |-> Entry("nre"),
+            nal |-> Entry("nal"), are |-> Entry("are"), beta |-> Entry("beta"),
             exp |-> Entry("exp"), rl |-> Entry("rl"), unk |-> Entry("unk")]
 
 Family == {"match", "match2", "any", "level", "level2", "gated", "gated2", "replace", "replace2", "saveload"}
